@@ -3,7 +3,7 @@
    Print Assumptions.  The pattern list `base_patterns` comes from Gen/Secure.v,
    regenerated from pygopherd/handlers/base.py on every run. *)
 From Coq Require Import String.
-From PG Require Import Lib.Str Lib.StrFacts Gen.Secure Model.Selector Proofs.SelectorFacts Proofs.C01Facts.
+From PG Require Import Lib.Str Lib.StrFacts Gen.Secure Model.Selector Proofs.SelectorFacts Proofs.C01Facts Model.Handlers Proofs.HandlersFacts.
 Local Open Scope N_scope.
 
 (* The climbing substrings named by the property text (./ .. // .\ \\ NUL) are C01Facts.climbers *)
@@ -63,6 +63,50 @@ Theorem C01_rewriter_confined :
     getfspath root (rewriter_target s) = Some p -> inside root p = true.
 Proof. exact C01Facts.rewriter_confined. Qed.
 Print Assumptions C01_rewriter_confined.
+
+(* ---- the handler chain (Model/Handlers.v: HandlerMultiplexer.getHandler + every handler's test) ---- *)
+
+(* a selector that passes neither filter reaches no handler: for EVERY tree, handler list,
+   MIME table, ZIP setting and PYG content the answer is not-found *)
+Theorem C01_insecure_notfound :
+  forall root mime_html compressed_ok zip_enabled zip_pattern pyg_accepts all sel,
+    is_secure sel = false -> url_secure sel = false ->
+    get_handler root mime_html compressed_ok zip_enabled zip_pattern pyg_accepts all sel = NotFound.
+Proof. exact HandlersFacts.insecure_notfound. Qed.
+Print Assumptions C01_insecure_notfound.
+
+(* everything the chain itself opens or executes while choosing lies inside the root, and
+   for a secure selector so does everything it stats *)
+Theorem C01_chain_confined :
+  forall rootpath hs sel c p fsp,
+    starts_with_slash sel = true ->
+    In (c, p) (chain_accesses hs sel) -> (c <> AStat \/ is_secure sel = true) ->
+    getfspath rootpath p = Some fsp -> inside rootpath fsp = true.
+Proof.
+  exact (HandlersFacts.chain_accesses_confined (fun _ => true) (fun _ => true) (fun _ => true) (fun _ => true)).
+Qed.
+Print Assumptions C01_chain_confined.
+
+(* the handler finally chosen (other than the URL redirector, which never touches the file
+   system) works on a selector that passed the filter and starts with a slash *)
+Theorem C01_chosen_secure :
+  forall root mime_html compressed_ok zip_enabled zip_pattern pyg_accepts all sel h s,
+    starts_with_slash sel = true ->
+    get_handler root mime_html compressed_ok zip_enabled zip_pattern pyg_accepts all sel = Chosen h s ->
+    h <> HUrl -> is_secure s = true /\ starts_with_slash s = true.
+Proof.
+  intros root mh co ze zp pa all sel h s L H N. split.
+  - exact (HandlersFacts.chosen_secure root mh co ze zp pa all sel h s H N).
+  - exact (HandlersFacts.chosen_starts_slash root mh co ze zp pa all sel h s L H).
+Qed.
+Print Assumptions C01_chosen_secure.
+
+Theorem C01_filter_overrides_as_modelled :
+  list_eqb str_eqb secure_overriders
+    (map lit ["base.BaseHandler.isrequestforme"; "base.BaseHandler.isrequestsecure";
+              "url.HTMLURLHandler.isrequestsecure"]%string) = true.
+Proof. exact C01Facts.overriders_as_modelled. Qed.
+Print Assumptions C01_filter_overrides_as_modelled.
 
 (* non-vacuity: a concrete secure selector and root *)
 Example C01_example :
